@@ -10,6 +10,12 @@ A change of a formula in `pyroll/core/profile/hookimpls.py`, `roll/hookimpls.py`
 `roll_pass/hookimpls/deformation_unit.py` changes the generated term, and the theorem that no longer follows
 stops building.
 
+A hook implementation is translated as a list of guarded ALTERNATIVES (`Impl.alts`: one per `return`, with its path
+condition).  The `…_every_alt` theorems state an identity for EVERY alternative of the generated `Impl` (`EveryAlt`), the
+`…_single_alt` theorems state that an implementation consists of its one unguarded formula: a branch added to the source
+(e.g. a shortcut through a cached value) appears as a further alternative and must satisfy the identity too, otherwise the
+theorem named after the source item stops building.
+
 Variables are the attribute paths the implementation reads (`cross_section.area`, `width`, …); `ρ` assigns reals.
 Chord properties of `local_height/local_width` (shapely intersections) are not theorems: they are checked
 numerically by the harness (partial, see DESIGN.md).
@@ -21,7 +27,21 @@ namespace C17
 
 variable (ρ : String → ℝ)
 
+/-- Every alternative of a translated implementation is either `return None` (the hook falls through to the next
+    implementation) or a formula satisfying `P`; an alternative outside the translatable subset falsifies it. -/
+def EveryAlt (i : Impl) (P : Expr → Prop) : Prop :=
+  ∀ a ∈ i.alts, match a.2 with
+    | .expr e => P e
+    | .none => True
+    | _ => False
+
 /-! ### equivalent rectangle / radius -/
+
+/-- the three implementations are their single unguarded formula (no other branch exists) -/
+theorem rectangle_single_alt :
+    equivalent_height.alts = [(.tt, .expr equivalent_height_e)] ∧
+    equivalent_width.alts = [(.tt, .expr equivalent_width_e)] ∧
+    equivalent_radius.alts = [(.tt, .expr equivalent_radius_e)] := ⟨rfl, rfl, rfl⟩
 
 /-- the equivalent rectangle has the profile's area -/
 theorem eq_rect_area (hA : 0 ≤ ρ "cross_section.area") (hw : 0 < ρ "width") (hh : 0 < ρ "height") :
@@ -56,6 +76,12 @@ theorem hydrostatic_mean :
       = (ρ "longitudinal_stress" + ρ "altitudinal_stress" + ρ "latitudinal_stress") / 3 := by
   simp [hydrostatic_stress_e, eval]
 
+/-- … in every alternative of the implementation (the only other one is `return None` when a stress is missing) -/
+theorem hydrostatic_every_alt :
+    EveryAlt hydrostatic_stress (fun e => eval ρ e
+      = (ρ "longitudinal_stress" + ρ "altitudinal_stress" + ρ "latitudinal_stress") / 3) := by
+  simp [EveryAlt, hydrostatic_stress, eval]
+
 /-- the three stresses as an environment (for the permutation statements) -/
 def stressEnv (a b c : ℝ) : String → ℝ := fun n =>
   if n = "longitudinal_stress" then a else if n = "altitudinal_stress" then b
@@ -65,6 +91,12 @@ theorem von_mises_value (a b c : ℝ) :
     eval (stressEnv a b c) equivalent_stress_e
       = Real.sqrt (1 / 2 * ((a - b) ^ 2 + (b - c) ^ 2 + (c - a) ^ 2)) := by
   simp [equivalent_stress_e, eval, stressEnv]
+
+/-- every alternative of `equivalent_stress` is the von Mises value (so the statements below hold for each branch) -/
+theorem von_mises_every_alt (a b c : ℝ) :
+    EveryAlt equivalent_stress (fun e => eval (stressEnv a b c) e
+      = Real.sqrt (1 / 2 * ((a - b) ^ 2 + (b - c) ^ 2 + (c - a) ^ 2))) := by
+  simp [EveryAlt, equivalent_stress, eval, stressEnv]
 
 /-- equivalent stress is unchanged under every permutation of the principal stresses -/
 theorem von_mises_perm (a b c : ℝ) :
@@ -113,6 +145,99 @@ theorem roll_penetration_identity
   simp only [roll_heat_penetration_number_e, eval, PyNum.sqrt_real]
   exact Real.sq_sqrt h
 
+/-! #### the same for EVERY alternative of the four implementations
+
+A branch that reuses another (cached) derived value reads a variable other than the three material constants and has to
+satisfy the identity for arbitrary values of it - i.e. it cannot; the derived quantities "follow from conductivity,
+density and heat capacity". -/
+
+/-- `a·ρ·c = λ` as a predicate on a formula -/
+def IsDiffusivity (e : Expr) : Prop :=
+  eval ρ e * ρ "density" * ρ "specific_heat_capacity" = ρ "thermal_conductivity"
+
+/-- `b² = λ·ρ·c`, `b ≥ 0` as a predicate on a formula -/
+def IsPenetration (e : Expr) : Prop :=
+  (eval ρ e) ^ 2 = ρ "thermal_conductivity" * ρ "density" * ρ "specific_heat_capacity" ∧ 0 ≤ eval ρ e
+
+theorem diffusivity_every_alt (hr : ρ "density" ≠ 0) (hc : ρ "specific_heat_capacity" ≠ 0) :
+    EveryAlt thermal_diffusivity (IsDiffusivity ρ) := by
+  simp only [EveryAlt, IsDiffusivity, thermal_diffusivity, List.forall_mem_cons, List.not_mem_nil, eval]
+  field_simp
+  simp
+
+theorem roll_diffusivity_every_alt (hr : ρ "density" ≠ 0) (hc : ρ "specific_heat_capacity" ≠ 0) :
+    EveryAlt roll_thermal_diffusivity (IsDiffusivity ρ) := by
+  simp only [EveryAlt, IsDiffusivity, roll_thermal_diffusivity, List.forall_mem_cons, List.not_mem_nil, eval]
+  field_simp
+  simp
+
+theorem penetration_every_alt
+    (h : 0 ≤ ρ "thermal_conductivity" * ρ "density" * ρ "specific_heat_capacity") :
+    EveryAlt heat_penetration_number (IsPenetration ρ) := by
+  simp only [EveryAlt, IsPenetration, heat_penetration_number, List.forall_mem_cons, List.not_mem_nil, eval,
+    PyNum.sqrt_real]
+  simp [Real.sq_sqrt h, Real.sqrt_nonneg]
+
+theorem roll_penetration_every_alt
+    (h : 0 ≤ ρ "thermal_conductivity" * ρ "density" * ρ "specific_heat_capacity") :
+    EveryAlt roll_heat_penetration_number (IsPenetration ρ) := by
+  simp only [EveryAlt, IsPenetration, roll_heat_penetration_number, List.forall_mem_cons, List.not_mem_nil, eval,
+    PyNum.sqrt_real]
+  simp [Real.sq_sqrt h, Real.sqrt_nonneg]
+
+/-- the two identities determine each derived value from the other: `b = λ/√a` -/
+theorem mutual_of_identities {ea eb : Expr} (ha : IsDiffusivity ρ ea) (hb : IsPenetration ρ eb)
+    (hk : 0 < ρ "thermal_conductivity") (hr : 0 < ρ "density") (hc : 0 < ρ "specific_heat_capacity") :
+    eval ρ eb = ρ "thermal_conductivity" / Real.sqrt (eval ρ ea) := by
+  obtain ⟨hb2, hb0⟩ := hb
+  unfold IsDiffusivity at ha
+  have hapos : 0 < eval ρ ea := by
+    by_contra hneg
+    have h1 : eval ρ ea * ρ "density" * ρ "specific_heat_capacity" ≤ 0 :=
+      mul_nonpos_of_nonpos_of_nonneg (mul_nonpos_of_nonpos_of_nonneg (not_lt.mp hneg) hr.le) hc.le
+    linarith
+  have hs : 0 < Real.sqrt (eval ρ ea) := Real.sqrt_pos.2 hapos
+  rw [eq_div_iff hs.ne']
+  have hsq : (eval ρ eb * Real.sqrt (eval ρ ea)) ^ 2 = ρ "thermal_conductivity" ^ 2 := by
+    rw [mul_pow, Real.sq_sqrt hapos.le, hb2, ← ha]; ring
+  have h0 : 0 ≤ eval ρ eb * Real.sqrt (eval ρ ea) := mul_nonneg hb0 hs.le
+  exact (pow_left_inj₀ h0 hk.le (by norm_num)).mp hsq
+
+/-- … for every pair of alternatives, i.e. whichever branch either implementation takes (profile / roll) -/
+theorem thermal_mutual_every_alt
+    (hk : 0 < ρ "thermal_conductivity") (hr : 0 < ρ "density") (hc : 0 < ρ "specific_heat_capacity") :
+    EveryAlt thermal_diffusivity (fun ea => EveryAlt heat_penetration_number (fun eb =>
+      eval ρ eb = ρ "thermal_conductivity" / Real.sqrt (eval ρ ea))) := by
+  have hA := diffusivity_every_alt ρ hr.ne' hc.ne'
+  have hB := penetration_every_alt ρ (by positivity)
+  intro a ha
+  have hA' := hA a ha
+  split <;> try trivial
+  · intro b hb
+    have hB' := hB b hb
+    split <;> try trivial
+    · simp_all only
+      exact mutual_of_identities ρ hA' hB' hk hr hc
+    · simp_all
+  · simp_all
+
+theorem roll_thermal_mutual_every_alt
+    (hk : 0 < ρ "thermal_conductivity") (hr : 0 < ρ "density") (hc : 0 < ρ "specific_heat_capacity") :
+    EveryAlt roll_thermal_diffusivity (fun ea => EveryAlt roll_heat_penetration_number (fun eb =>
+      eval ρ eb = ρ "thermal_conductivity" / Real.sqrt (eval ρ ea))) := by
+  have hA := roll_diffusivity_every_alt ρ hr.ne' hc.ne'
+  have hB := roll_penetration_every_alt ρ (by positivity)
+  intro a ha
+  have hA' := hA a ha
+  split <;> try trivial
+  · intro b hb
+    have hB' := hB b hb
+    split <;> try trivial
+    · simp_all only
+      exact mutual_of_identities ρ hA' hB' hk hr hc
+    · simp_all
+  · simp_all
+
 /-! ### coefficients of draught, spread, elongation: absolute / relative / logarithmic forms -/
 
 /-- A consistent assignment: every hook variable the formulas read has the value its own formula gives. -/
@@ -126,6 +251,19 @@ structure Consistent (ρ : String → ℝ) : Prop where
   log_draught : ρ "log_draught" = eval ρ log_draught_e
   log_spread : ρ "log_spread" = eval ρ log_spread_e
   log_elongation : ρ "log_elongation" = eval ρ log_elongation_e
+
+/-- each of the twelve coefficient implementations is its single unguarded formula: the `Consistent` structure and the
+    theorems below therefore speak about every branch of the source -/
+theorem coefficients_single_alt :
+    draught.alts = [(.tt, .expr draught_e)] ∧ spread.alts = [(.tt, .expr spread_e)] ∧
+    elongation.alts = [(.tt, .expr elongation_e)] ∧
+    log_draught.alts = [(.tt, .expr log_draught_e)] ∧ log_spread.alts = [(.tt, .expr log_spread_e)] ∧
+    log_elongation.alts = [(.tt, .expr log_elongation_e)] ∧
+    abs_draught.alts = [(.tt, .expr abs_draught_e)] ∧ abs_spread.alts = [(.tt, .expr abs_spread_e)] ∧
+    abs_elongation.alts = [(.tt, .expr abs_elongation_e)] ∧
+    rel_draught.alts = [(.tt, .expr rel_draught_e)] ∧ rel_spread.alts = [(.tt, .expr rel_spread_e)] ∧
+    rel_elongation.alts = [(.tt, .expr rel_elongation_e)] :=
+  ⟨rfl, rfl, rfl, rfl, rfl, rfl, rfl, rfl, rfl, rfl, rfl, rfl⟩
 
 theorem draught_is_ratio :
     eval ρ draught_e = ρ "out_profile.equivalent_rectangle.height" / ρ "in_profile.equivalent_rectangle.height" ∧
@@ -166,6 +304,13 @@ theorem strain_def :
       = Real.sqrt (2 / 3 * (ρ "log_elongation" ^ 2 + ρ "log_spread" ^ 2 + ρ "log_draught" ^ 2)) := by
   simp [strain_e, eval]
 
+/-- … in EVERY alternative of the implementation: a branch that computes the strain from fewer than the three
+    logarithmic coefficients (e.g. assuming volume constancy) does not satisfy this for all values of the three -/
+theorem strain_every_alt :
+    EveryAlt strain (fun e => eval ρ e
+      = Real.sqrt (2 / 3 * (ρ "log_elongation" ^ 2 + ρ "log_spread" ^ 2 + ρ "log_draught" ^ 2))) := by
+  simp [EveryAlt, strain, eval]
+
 /-- draught · spread · elongation = 1 when the equivalent rectangles carry the areas (C06 uses this too) -/
 theorem coefficients_multiply_to_one
     (hin : ρ "in_profile.equivalent_rectangle.height" * ρ "in_profile.equivalent_rectangle.width"
@@ -197,5 +342,29 @@ example : ∃ ρ : String → ℝ, 0 < ρ "cross_section.area" ∧ 0 < ρ "width
 
 example : eval (stressEnv 3 0 0) equivalent_stress_e = 3 := by
   rw [(von_mises_uniaxial 3).1]; norm_num
+
+/-- `EveryAlt` is not vacuous: each guarded implementation HAS a formula alternative, and it is the `_e` term -/
+example : Impl.mainExpr roll_thermal_diffusivity = some roll_thermal_diffusivity_e ∧
+    Impl.mainExpr roll_heat_penetration_number = some roll_heat_penetration_number_e ∧
+    Impl.mainExpr thermal_diffusivity = some thermal_diffusivity_e ∧
+    Impl.mainExpr heat_penetration_number = some heat_penetration_number_e ∧
+    Impl.mainExpr equivalent_stress = some equivalent_stress_e ∧
+    Impl.mainExpr hydrostatic_stress = some hydrostatic_stress_e ∧
+    Impl.mainExpr strain = some strain_e := ⟨rfl, rfl, rfl, rfl, rfl, rfl, rfl⟩
+
+/-- … and `EveryAlt` does reject a wrong branch: the shortcut `b²/(ρ c)` through a cached heat penetration number -/
+example : ¬ EveryAlt
+    { roll_thermal_diffusivity with
+      alts := (.hasCached "" "heat_penetration_number",
+               .expr (.div (.pow (.var "heat_penetration_number") 2)
+                 (.mul (.var "density") (.var "specific_heat_capacity")))) :: roll_thermal_diffusivity.alts }
+    (IsDiffusivity (fun n => if n = "heat_penetration_number" then 2 else 1)) := by
+  intro h
+  have := h _ List.mem_cons_self
+  simp [IsDiffusivity, eval] at this
+  norm_num at this
+
+example : ∃ ρ : String → ℝ, 0 < ρ "thermal_conductivity" ∧ 0 < ρ "density" ∧ 0 < ρ "specific_heat_capacity" :=
+  ⟨fun _ => 2, by norm_num, by norm_num, by norm_num⟩
 
 end C17
